@@ -199,6 +199,10 @@ var uniq int
 
 func tag() string { uniq++; return fmt.Sprintf("u%d", uniq) }
 
+// ragged selects the slice shapes fill builds: 0 = two elements everywhere; 1 / 2 = three elements, and rows of
+// nested slices of lengths (1, 3) / (3, 1).
+var ragged int
+
 var (
 	exprIface = reflect.TypeOf((*ast.Expression)(nil)).Elem()
 	stmtIface = reflect.TypeOf((*ast.Statement)(nil)).Elem()
@@ -252,9 +256,30 @@ func fill(t reflect.Type, depth int) reflect.Value {
 		}
 		return v
 	case reflect.Slice:
-		s := reflect.MakeSlice(t, 2, 2)
-		s.Index(0).Set(fill(t.Elem(), depth))
-		s.Index(1).Set(fill(t.Elem(), depth))
+		n := 2
+		if ragged > 0 {
+			// nested slices (rows of rows) get rows of different lengths: 1, 3 (ragged = 1) or 3, 1 (ragged = 2)
+			if t.Elem().Kind() == reflect.Slice {
+				s := reflect.MakeSlice(t, 2, 2)
+				for i := 0; i < 2; i++ {
+					want := 1
+					if (ragged == 1) == (i == 1) {
+						want = 3
+					}
+					row := reflect.MakeSlice(t.Elem(), want, want)
+					for k := 0; k < want; k++ {
+						row.Index(k).Set(fill(t.Elem().Elem(), depth))
+					}
+					s.Index(i).Set(row)
+				}
+				return s
+			}
+			n = 3
+		}
+		s := reflect.MakeSlice(t, n, n)
+		for i := 0; i < n; i++ {
+			s.Index(i).Set(fill(t.Elem(), depth))
+		}
 		return s
 	case reflect.Array:
 		a := reflect.New(t).Elem()
@@ -316,7 +341,7 @@ func Check() *common.Check {
 		ID:    "C14",
 		Level: "exploration",
 		Rule: "(S) every struct type of pkg/sql/ast with a Children method (listed from the current source by tools/astreg) x every exported field that can hold a node, " +
-			"populated alone with uniquely tagged content to depth 2; (S2) every interface-typed node position (field or slice element) x every concrete node type assignable to it; (T) every tree of the sqlgen statement space (quick: without 3/4-operator shapes) " +
+			"populated alone with uniquely tagged content to depth 2, slices with 2 and 3 elements and rows of nested slices with lengths (2,2), (1,3), (3,1); (S2) every interface-typed node position (field or slice element) x every concrete node type assignable to it; (T) every tree of the sqlgen statement space (quick: without 3/4-operator shapes) " +
 			"every .sql file under /repo/testdata the parser accepts, and left-deep operator / UNION chains of every length 2..40, around 64..1024 and a ladder up to 1200 operands. Oracle on each root: multiset of nodes seen by ast.Inspect == multiset of node-typed values reachable by reflection. " +
 			"distinct = distinct (type,field) obligations and distinct SQL texts; non-trivial = the root has at least 3 reachable nodes",
 		Assume: []string{"a node is identified by its type and canonical dump (Children() hands out copies of value-typed elements)",
@@ -330,6 +355,24 @@ func Check() *common.Check {
 					f := st.Field(i)
 					if f.PkgPath != "" || !canHoldNode(f.Type, 0) {
 						continue
+					}
+					for rg := 0; rg <= 2; rg++ {
+						rg := rg
+						if rg > 0 && f.Type.Kind() != reflect.Slice {
+							continue
+						}
+						rkey := fmt.Sprintf("S/%s.%s/shape%d", st.Name(), f.Name, rg)
+						e.Do(rkey, func(c *common.Ctx) {
+							ragged = rg
+							defer func() { ragged = 0 }()
+							root := reflect.New(st)
+							root.Elem().Field(i).Set(fill(f.Type, 2))
+							n := root.Interface().(ast.Node)
+							c.Input(rkey + " = " + common.Trim(sqlgen.Dump(n), 600))
+							compare(c, n)
+							c.Outcome("structural")
+							c.NonTrivial()
+						})
 					}
 					key := "S/" + st.Name() + "." + f.Name
 					e.Do(key, func(c *common.Ctx) {
